@@ -213,9 +213,44 @@ def run_leaf_writer_sizes(ctx):
     ctx.rule("leaf.writer-size", n, floor=12, note="hand-written list writers (achievement arrays, addon array) x element counts: measured bytes = per-element * len + constant used by size.write-agree")
 
 
+def run_leaf_size_fns(ctx):
+    """leaf.size-fns: the hand-written size helpers that the generated size() expressions call (packed_guid_size, the size() of the mask
+    built-ins, monster_move_spline_size) return the number of bytes their writers emit — the interpretation is that of C01's leaf.codecs /
+    builtin.siblings, of which only the size clauses are reported here"""
+    from ..facts import facts
+    from . import c01_leaf
+    FB = {c: facts(c) for c in ("wow_world_messages", "wow_world_base", "wow_login_messages")}
+    n = [0]
+
+    class _SizeOnly:
+        samples = ctx.samples
+
+        def violate(self, rule, key, message, file=None, line=None, **kw):
+            if key.endswith("|size") or key.endswith("packed-guid-size") or key.startswith("anchor|"):
+                ctx.violate("leaf.size-fns", key, message, file, line, **kw)
+
+        def rule(self, *a, **k):
+            pass
+
+        def sample(self, *_a):
+            pass
+
+        def assume(self, *_a):
+            pass
+    F = FB["wow_world_messages"]
+    rd, wr, sz = (F.fn("crate::util::functions::shared::" + x) for x in ("read_packed_guid", "write_packed_guid", "packed_guid_size"))
+    if rd is None or wr is None or sz is None:
+        ctx.violate("leaf.size-fns", "anchor|packed-guid", "read_packed_guid / write_packed_guid / packed_guid_size not found (anchor disappeared)")
+    else:
+        n[0] += c01_leaf.check_packed_guid(_SizeOnly(), FB, "wow_world_messages", rd, wr, sz)
+    n[0] += c01_leaf.check_builtins(_SizeOnly(), FB) or 0
+    ctx.rule("leaf.size-fns", n[0], floor=256, note="packed_guid_size over the 256 byte-occupancy classes, size() of the mask built-ins and monster_move_spline_size: value = bytes the writer emits")
+
+
 def run(ctx):
     run_size(ctx)
     run_leaf_writer_sizes(ctx)
+    run_leaf_size_fns(ctx)
     run_cycles(ctx)
     try:
         from . import c02_frame
